@@ -193,6 +193,9 @@ pub fn set_slot_raw(r: &RawPos) {
 }
 
 pub fn set_slot_text(parser: u8, text: &str) {
+    if text.len() > SLOT_SIZE - 3 {
+        return; // would be truncated: keep the descriptor the caller has put there
+    }
     let mut v = Vec::with_capacity(text.len() + 1);
     v.push(parser);
     v.extend_from_slice(text.as_bytes());
